@@ -3,8 +3,8 @@
 the comment positions collected by `visit_token` are not consulted).
 -/
 import Selene.Lints.TraverseB
-namespace Selene.Lints.EmptyIf
-open Selene.Lua Selene.Lints
+namespace Selene.LintsB.EmptyIf
+open Selene.Lua Selene.LintsB
 
 /-- `block_is_empty` -/
 def blockIsEmpty : Block → Bool
@@ -52,4 +52,4 @@ namespace Doc
 def noStatements (b : Block) : Prop := blockStmts b = .nil ∧ blockLast b = .none
 end Doc
 
-end Selene.Lints.EmptyIf
+end Selene.LintsB.EmptyIf
